@@ -50,6 +50,8 @@ class Creators:
 
   def _register_line(self, gfa_line):
     self._api_private_check_gfa_line(gfa_line, "_register_line")
+    if self._new_virtual_lines is not None and gfa_line.virtual:
+      self._new_virtual_lines.append(gfa_line)
     storage_key = gfa_line.__class__.STORAGE_KEY
     if storage_key == "merge":
       self._records[gfa_line.record_type]._merge(gfa_line)
